@@ -308,7 +308,7 @@ def generate(tier, seed):
     spec = base_spec(False)
     opt_pool = [dict(x, optional=True) for x in leaf_pool(False) if x["kind"] != "expr"][:6]
     for nopt in (1, 2, 3):
-        for mode, n in ((None, None), ("exact", 1), ("min", 1), ("max", 1), ("exact", 2), ("min", 2), ("exact", 3)):
+        for mode, n in ((None, None), ("exact", 1), ("min", 1), ("max", 1), ("exact", 2), ("min", 2), ("max", 2), ("exact", 3), ("max", 3), ("min", 3)):
             if n is not None and n > nopt:
                 continue
             r = random.Random(f"{seed}-{nopt}-{mode}-{n}")
